@@ -96,6 +96,32 @@ pub fn selftest() -> Result<(), String> {
             }
         }
     }
+    // panic attribution: a panic raised in harness code is a harness error, one raised inside the crate under
+    // test (here: indexing an empty Directory) is an observation about the library
+    {
+        crate::obs::install_panic_hook();
+        let h = crate::obs::guard(|| {
+            let v: Vec<u8> = Vec::new();
+            let i = std::hint::black_box(3usize);
+            v[i]
+        });
+        match h {
+            Err(p) if p.harness => {}
+            other => return Err(format!("harness panic not attributed to the harness: {:?}", other.err().map(|p| (p.harness, p.file)))),
+        }
+        let l = crate::obs::guard(|| {
+            // descending tile ids: the delta computation inside the library's serialiser underflows
+            let e = |id: u64| pmtiles2::Entry { tile_id: id, offset: 0, length: 1, run_length: 1 };
+            let d = pmtiles2::Directory::from(vec![e(9), e(2)]);
+            let mut out = Vec::new();
+            d.to_writer(&mut out, pmtiles2::Compression::None).is_ok()
+        });
+        match l {
+            Err(p) if !p.harness => {}
+            other => return Err(format!("library panic not attributed to the library: {:?}", other.err().map(|p| (p.harness, p.file)))),
+        }
+        let _ = std::panic::take_hook();
+    }
     // the independent JSON reader returns exactly what was serialised
     for i in 0..300 {
         let mut rng = crate::rng::Rng::new(5000 + i);
